@@ -19,6 +19,8 @@ PROP = "C17"
 
 COMMB_FIELDS = ["tas", "roll", "rtrk", "trk50", "gs50", "ias", "hdg", "mach", "roc60baro", "roc60ins", "t50", "t60",
                 "hum44", "p44", "temp44", "turb44", "wind44"]
+PROVENANCE = [("tas", "tas50"), ("roll", "roll50"), ("rtrk", "rtrk50"), ("trk50", "trk50"), ("gs50", "gs50"),
+              ("ias", "ias60"), ("hdg", "hdg60"), ("mach", "mach60"), ("roc60baro", "vr60baro"), ("roc60ins", "vr60ins")]
 BOUNDARY = [58.9, 59.0, 59.5, 60.0, 60.5, 61.0, 61.001, 62.5]
 GAPS = [3, 9.5, 9.99, 10.01, 12, 30, 58, 60.5, 62, 100, 179, 179.9, 180.1, 200, 400]
 BASES = [0.0, 0.0, 100.25, -500.0, 1.7e9, 2147483648.5]
@@ -543,6 +545,7 @@ def execute(sc, keep_log=False):
             nontrivial = True
         stats.c["probe.start_" + a.get("start_kind", "?")] += 1
     prev_keys = set()
+    own_vals = {}
     listed_since = {}
     outage_seen = set()
     outages = {}
@@ -605,6 +608,28 @@ def execute(sc, keep_log=False):
                     if setf:
                         violations.append({"clause": "C17.d", "call": ci,
                                            "detail": "call %d: %s carries Comm-B fields %r without a Comm-B reply while listed" % (ci, ku, setf)})
+        # C17.d provenance: a Comm-B derived value in aircraft X's record must be
+        # what one of X's own replies decodes to (values of another aircraft's
+        # reply, or of an earlier message through a stale local, are "attached" to
+        # an aircraft they do not belong to)
+        pm = m["pms"]
+        for _t, x in call["c"]:
+            adr = R.frame_address(x)
+            if adr not in own_vals:
+                own_vals[adr] = dict((f, set()) for f, _fn in PROVENANCE)
+            for f, fn in PROVENANCE:
+                try:
+                    own_vals[adr][f].add(getattr(pm.commb, fn)(x))
+                except Exception:
+                    pass
+        for k, rec in tables[0].items():
+            ku = str(k).upper()
+            for f, _fn in PROVENANCE:
+                v = rec.get(f)
+                if v is not None and v not in own_vals.get(ku, {}).get(f, ()):
+                    violations.append({"clause": "C17.d", "call": ci,
+                                       "detail": "call %d: %s carries %s=%r which none of its own Comm-B replies decodes to" % (ci, ku, f, v)})
+                    break
         # C17.e twins agree
         na, nb = _norm_table(tables[0]), _norm_table(tables[1])
         if na != nb:
